@@ -1625,3 +1625,9 @@ M("C20-ss-gate-rejects-finished-predecessor", "C20", "R5.3", WF,
                         ready = True""",
   """                    if input_task.state == BaseTaskState.WORKING:
                         ready = True""")
+M("C05-status-written-in-perform-phase", "C05", "R5.2", PJ,
+  """    def __perform(self):
+        self.workflow.perform(self.time)""",
+  """    def __perform(self):
+        self.status = BaseProjectStatus.NONE
+        self.workflow.perform(self.time)""")
